@@ -241,7 +241,7 @@ def mutate_message_and_check(acc, g, m, lmsg, specs, objs, path):
     specs = list(specs)
     trace = []
     for _ in range(r.randrange(1, 4)):
-        op = r.choice(["append", "pop", "setitem", "update_avp", "extend"])
+        op = r.choice(["append", "pop", "setitem", "update_avp", "extend", "avps=", "cleanup"])
         try:
             if op == "append":
                 sp = g.any_avp(maxdepth=3)
@@ -253,6 +253,16 @@ def mutate_message_and_check(acc, g, m, lmsg, specs, objs, path):
                 os_ = [sp.build() for sp in sps]
                 m.extend(os_)
                 lavps += [sp.lavp for sp in sps]; objs += os_; specs += sps
+            elif op == "avps=":
+                sps = [g.any_avp(maxdepth=2) for _ in range(r.randrange(0, 3))]
+                if sps and r.random() < 0.5:
+                    sps.append(g.avp(sps[0].cls) if sps[0].cls else g.generic())       # a second AVP of the same name
+                os_ = [sp.build() for sp in sps]
+                m.avps = os_
+                lavps = [sp.lavp for sp in sps]; objs = os_; specs = sps
+            elif op == "cleanup":
+                m.cleanup()
+                lavps = []; objs = []; specs = []
             elif op == "pop" and objs:
                 i = r.randrange(len(objs))
                 key = next((k for k, v in m.__dict__.items() if v is objs[i] and k != "_avps"), None)
